@@ -32,3 +32,10 @@ package zklog
 //@   nopanic[C05]
 //@   inline
 //@   requires hash != nil && hash.h != nil && group != nil && public.H != nil && public.X != nil && public.Y != nil && commitment != nil
+//@   use absorb
+//@   ensures[C10] result1 == nil ==> absorbed(hstate(hash), habs(iface(public.H)))
+//@   ensures[C10] result1 == nil ==> absorbed(hstate(hash), habs(iface(public.X)))
+//@   ensures[C10] result1 == nil ==> absorbed(hstate(hash), habs(iface(public.Y)))
+//@   ensures[C10] result1 == nil ==> absorbed(hstate(hash), habs(iface(commitment.A)))
+//@   ensures[C10] result1 == nil ==> absorbed(hstate(hash), habs(iface(commitment.B)))
+//@   ensures[C10] result1 == nil ==> absorbed(hstate(hash), habs(iface(commitment.C)))
